@@ -16,8 +16,14 @@ def main():
     props = [json.loads(l) for l in open(os.path.join(tlc.VERIF, "properties.jsonl"))]
     checks, na = [], []
     engines = {}
+    ready_file = os.path.join(tlc.VERIF, "vt", "props", "READY")
+    ready = set(open(ready_file).read().split()) if os.path.exists(ready_file) else set()
     for p in props:
         pid = p["id"]
+        if pid not in ready:
+            na.append(dict(property_id=pid, reason="check not integrated yet in this round; planned as TLA+ module + "
+                                                   "conformance harness, see DESIGN.md section 6 " + pid))
+            continue
         try:
             mod = importlib.import_module(f"vt.props.{pid.lower()}")
             meta = mod.META
